@@ -157,8 +157,65 @@ type Exchange struct {
 	ClientOut *ClientOut  `json:"client_out,omitempty"`
 	Panic     string      `json:"panic,omitempty"`
 	Seq       []string    `json:"seq,omitempty"` // order of taps
+	// LateChange lists values that changed AFTER they were handed over (the result the client endpoint
+	// returned, the payload the service method received): the retained Go values are canonicalised again
+	// after later exchanges ran and compared with what was recorded at hand-over time.
+	LateChange []string `json:"late_change,omitempty"`
 
-	mu sync.Mutex
+	mu   sync.Mutex
+	kept []keptVal
+}
+
+// keptVal is a Go value retained after it was handed over, with its canonical form at that time.
+type keptVal struct {
+	tap  string
+	val  any
+	t    reflect.Type
+	snap []byte
+}
+
+func (e *Exchange) retain(tap string, val any, t reflect.Type, tree any) {
+	if val == nil {
+		return
+	}
+	b, err := json.Marshal(tree)
+	if err != nil {
+		return
+	}
+	e.mu.Lock()
+	e.kept = append(e.kept, keptVal{tap: tap, val: val, t: t, snap: b})
+	e.mu.Unlock()
+}
+
+// recheck canonicalises the retained values again and records those that moved.
+func (e *Exchange) recheck() {
+	e.mu.Lock()
+	kept := e.kept
+	e.kept = nil
+	e.mu.Unlock()
+	for _, k := range kept {
+		var now []byte
+		func() {
+			defer func() {
+				if x := recover(); x != nil {
+					now = []byte(fmt.Sprintf("\"panic while reading the retained value: %v\"", x))
+				}
+			}()
+			now, _ = json.Marshal(canonTyped(k.val, k.t))
+		}()
+		if !bytes.Equal(now, k.snap) {
+			e.mu.Lock()
+			e.LateChange = append(e.LateChange, fmt.Sprintf("%s: handed over as %s, later reads %s", k.tap, clip(string(k.snap), 300), clip(string(now), 300)))
+			e.mu.Unlock()
+		}
+	}
+}
+
+func clip(s string, n int) string {
+	if len(s) > n {
+		return s[:n] + "..."
+	}
+	return s
 }
 
 func (e *Exchange) tap(name string) {
@@ -206,6 +263,7 @@ func (h *Hooks) Invoke(ctx context.Context, goMethod string, args []any, out Out
 	if len(args) > 0 {
 		si.HasPayload = true
 		si.Payload = canonTyped(args[0], h.svc.payloadT[h.svc.byGo[goMethod]])
+		defer ex.retain("stub_in", args[0], h.svc.payloadT[h.svc.byGo[goMethod]], si.Payload)
 	}
 	ex.StubIn = si
 	ex.Seq = append(ex.Seq, "stub_in")
@@ -369,6 +427,7 @@ type Driver struct {
 	current  atomic.Pointer[Exchange]
 	out      *bufio.Writer
 	outMu    sync.Mutex
+	pending  []*Exchange // finished exchanges waiting for their late re-read
 	// Echo, when set, computes the outcome from the received payload (C20 echo discipline).
 	Echo func(ex *Exchange, si *StubIn) *Outcome
 	// StubHook runs inside the stub between decode and encode (delay injection).
@@ -680,6 +739,7 @@ func (dr *Driver) runWith(c *Case, useGlobal bool, onStart func(*Exchange)) *Exc
 		} else if res != nil {
 			co.HasRes = true
 			co.Result = canonTyped(res, st.resT[c.Method])
+			ex.retain("client_out", res, st.resT[c.Method], co.Result)
 		}
 		ex.mu.Lock()
 		ex.ClientOut = co
@@ -725,8 +785,27 @@ func errInfo(err error) *ErrInfo {
 	return ei
 }
 
-// Log appends an exchange record to the output.
+// lateWindow is the number of exchanges that run before a finished exchange's retained values are read again.
+const lateWindow = 12
+
+// Log queues an exchange record; it is written once lateWindow later exchanges have been queued (or at
+// CloseLog), after its retained values were canonicalised again (Exchange.LateChange).
 func (dr *Driver) Log(ex *Exchange) {
+	dr.outMu.Lock()
+	dr.pending = append(dr.pending, ex)
+	var due *Exchange
+	if len(dr.pending) > lateWindow {
+		due = dr.pending[0]
+		dr.pending = dr.pending[1:]
+	}
+	dr.outMu.Unlock()
+	if due != nil {
+		due.recheck()
+		dr.write(due)
+	}
+}
+
+func (dr *Driver) write(ex *Exchange) {
 	dr.outMu.Lock()
 	defer dr.outMu.Unlock()
 	if dr.out == nil {
@@ -753,6 +832,14 @@ func (dr *Driver) OpenLog(path string) error {
 }
 
 func (dr *Driver) CloseLog() {
+	dr.outMu.Lock()
+	rest := dr.pending
+	dr.pending = nil
+	dr.outMu.Unlock()
+	for _, ex := range rest {
+		ex.recheck()
+		dr.write(ex)
+	}
 	if dr.out != nil {
 		dr.out.Flush()
 	}
